@@ -808,7 +808,14 @@ pub fn driver_main(check: Arc<dyn Check>, cfg: RunConfig) -> i32 {
                                 last = it.next().and_then(|x| x.parse().ok());
                             } else if let Some(rest) = l.strip_prefix("R ") {
                                 if let Ok(v) = serde_json::from_str::<Value>(rest) {
-                                    agg.lock().unwrap().merge(&v);
+                                    {
+                                        let mut a = agg.lock().unwrap();
+                                        a.merge(&v);
+                                        // failures beyond 200 are not even recorded: searching on only costs time
+                                        if a.fails.len() >= 200 {
+                                            stop.store(true, Ordering::Relaxed);
+                                        }
+                                    }
                                     // a tainted worker stops its batch early and exits
                                     let next = v["next"].as_u64().unwrap_or(start + count);
                                     if next < start + count {
